@@ -56,6 +56,33 @@ def r11_1(run):
         other = m.node.args.args[1].arg if len(m.node.args.args) > 1 else None
         cfg = build_cfg(run, m)
         for s in ss:
+            if name in ("__pow__", "__ipow__") and s.op_cls is None and isinstance(s.op_expr, ast.Name):
+                # the shortcut op is chosen into a local first (`unary_op = Positive` under `other == 1`, ...): judge every definition that
+                # reaches the call -- a class must be the documented shortcut for the exponent its guard tests; None must be excluded by a guard
+                from ..cfg import reaching_defs as _rd
+                nn = cfg.stmt_node_containing(s.call)
+                okv, why = True, []
+                for d_ in _rd(cfg, s.op_expr.id, nn):
+                    v_ = getattr(cfg.stmt[d_], "value", None) if d_ != ENTRY else None
+                    if isinstance(v_, ast.Constant) and v_.value is None:
+                        guarded = any(cfg.label[t] == "If" and norm(st) == f"{s.op_expr.id} is not None" and cfg.edge_dominates(t, "true", nn) for t, st in cfg.stmt.items())
+                        okv = okv and guarded
+                        why.append("None excluded by guard" if guarded else "None can reach the call")
+                        continue
+                    cls_ = facts(run).resolve_in(m, v_) if v_ is not None else None
+                    k_ = None
+                    for t, st in cfg.stmt.items():
+                        if cfg.label[t] == "If" and isinstance(st, ast.Compare) and norm(st.left) == other and isinstance(st.ops[0], ast.Eq) \
+                                and isinstance(st.comparators[0], ast.Constant) and cfg.edge_dominates(t, "true", d_):
+                            k_ = norm(st.comparators[0])
+                    g_ = _ufunc_of(run, cls_) if isinstance(cls_, ClassInfo) else None
+                    good = k_ is not None and g_ is not None and POW_SHORTCUTS.get(k_) == g_
+                    okv = okv and good
+                    why.append(f"{norm(v_) if v_ is not None else '?'} under {other} == {k_}")
+                okv = okv and [norm(a) for a in s.tensors] == ["self"] and ((s.kind == "_in_place_op") == (form == "inplace"))
+                run.ob("R11.1", loc(m, s.call), m.short, f"{name}: shortcut operation chosen through `{s.op_expr.id}`", okv,
+                       "; ".join(why) if okv else f"the locally chosen shortcut op is not the documented one for its exponent ({'; '.join(why)})")
+                continue
             got = _ufunc_of(run, s.op_cls) if s.op_cls else None
             want = uf
             # the documented power shortcuts
